@@ -9,6 +9,10 @@ import sys
 
 ROOT = os.path.join(os.path.dirname(os.path.dirname(os.path.abspath(__file__))), "seeded")
 NOTE = {
+    "C12-m5": "caught since the C12 universes give the linking Section an own child Section of the same name but another type (own.children = 3); on the "
+              "unchanged tree the refusal (ValueError, nothing changed) is the open finding F-C12-other-type-child",
+    "C06-m5": "caught since the link opcode may start from a Section whose link is already resolved (resolved = 1, part of the pre-state)",
+    "C08-m6": "caught since C08.separator_pairs (names and types with separator characters by symbolic index)",
     "C02-m1": "not a VIOLATION by construction (yaml.dump option, text layer); the check ends with exit 3: its preflight finds that the "
               "text-layer stub no longer describes what ODMLWriter('YAML').to_string does",
     "C07-m4": "missed by construction: the failure happens in file.write after a successful open (a lone surrogate the file encoder rejects); "
